@@ -6,7 +6,7 @@ from py_stringmatching.tokenizer.qgram_tokenizer import QgramTokenizer
 from engine import repo
 from engine.pathsym import pdmodel, symdata
 from engine.pathsym.core import SymInt, Violation, model_value
-from . import h_join, oracle, scenario
+from . import h_join, oracle, scenario, tracecheck
 
 JOINS = ['jaccard_join', 'cosine_join', 'dice_join', 'overlap_coefficient_join', 'overlap_join',
          'edit_distance_join']
@@ -311,6 +311,10 @@ def make(cfg):
             if hasattr(t, 'get_return_set') and mode_now != tok_mode:
                 msg = 'tokenizer mode %r after a valid call, was %r' % (mode_now, tok_mode)
                 raise Violation('C15/tokenizer-untouched: ' + msg, detail('tokenizer-untouched', msg))
-        return {'nontrivial': True, 'tags': [invalid or ('valid:' + shape)], 'sample': None}
+        tags = [invalid or ('valid:' + shape)]
+        if not ed and not isinstance(args['threshold'], (type(None),)) and invalid != 'tokenizer-not-tokenizer':
+            if tracecheck.maybe_validate(c, 'h_valid', detail('trace-validation', '-'), cfg.get('validate_every', 40), 'C15'):
+                tags.append('validated')
+        return {'nontrivial': True, 'tags': tags, 'sample': None}
 
     return h
